@@ -300,6 +300,11 @@ def document(draw):
         leaves = [n for b in body for n in _walk(b) if n["tag"] not in ("g", "use")]
         if leaves:
             _set_fill(draw, leaves[0], S["usable"][0])
+    if len(body) >= 2 and draw(st.integers(0, 4)) == 0:
+        # the gradient users live inside a translucent group of several children - a group the converter has to
+        # keep - and nowhere else: "still in use" must be decided over the whole tree, not over top-level shapes
+        body = [node("g", {"opacity": draw(st.sampled_from(["0.5", "0.8"]))}, c=body)]
+        S["feat"].add("users-inside-kept-translucent-group")
     # ---- placement of the gradients
     place = draw(st.sampled_from(["first", "first", "last", "last", "split", "bare"]))
     S["feat"].add("defs-" + place)
